@@ -361,6 +361,27 @@ func ruleU2(r *Run) {
 				r.Undec(key, c.Pos(), "untyped argument")
 				return true
 			}
+			// a direct registration (refer.Add, not the mode-checking AddReference) happens in reference mode only: in simple
+			// mode nothing may enter the table, or a pooled decoder carries the items of one message into the next
+			if f == add {
+				inRefMode := false
+				for _, fc := range factsWithSwitch(parentMap(fd.Body), c) {
+					ast.Inspect(fc.e, func(k ast.Node) bool {
+						if mc, ok := k.(*ast.CallExpr); ok && refName(methodName(mc)) == "IsSimple" && fc.neg {
+							inRefMode = true
+						}
+						if fv := fieldOf(info, exprOrNil(k)); fv != nil && fv.Name() == "simple" && fc.neg {
+							inRefMode = true
+						}
+						return true
+					})
+				}
+				// AddReference itself is the place that checks the mode
+				if refName(fd.Name.Name) == "AddReference" {
+					inRefMode = true
+				}
+				r.Check(inRefMode, fmt.Sprintf("registration only in reference mode in %s #%d", p.DeclName(fd), n), c.Pos(), "under !IsSimple()", "the item is put into the reference table whatever the mode: in simple mode the table is never consulted or cleared by the codecs, so a pooled decoder takes the registered items of one message into the next, and a later reference-mode message resolves its back-references against them")
+			}
 			_, isIface := at.Underlying().(*types.Interface)
 			_, isPtr := at.Underlying().(*types.Pointer)
 			bad := !isIface && !isPtr && pointerShaped(at)
